@@ -166,7 +166,6 @@ type sut struct {
 	typ      map[int64]int32  // entity id -> type at creation
 	nm       map[int64]string // entity id -> current name
 	nsName   map[int64]string // namespace-typed id -> name it was created with
-	tainted  map[int64]bool   // rows hit by an edit whose request type differs from the row type
 	maxVer   int64
 	versions map[int64]bool
 
@@ -198,7 +197,7 @@ func openSut(h *verifx.H, maxBudget int64, step uint32, bonus, globalBudget int6
 		panic(err)
 	}
 	x := &sut{h: h, dir: dir, now: now, ctx: context.Background(), maxBudget: maxBudget, step: step, bonus: bonus, globalBudget: globalBudget,
-		cur: map[int64]int64{}, typ: map[int64]int32{}, nm: map[int64]string{}, nsName: map[int64]string{}, tainted: map[int64]bool{},
+		cur: map[int64]int64{}, typ: map[int64]int32{}, nm: map[int64]string{}, nsName: map[int64]string{},
 		versions: map[int64]bool{}, shadow: map[string]int32{}, everID: map[int32]bool{}, env: map[int]*envelope{}, flags: map[string]bool{}}
 	x.open()
 	h.Op("cfg %d %d %d %d", maxBudget, step, bonus, globalBudget)
@@ -315,18 +314,13 @@ func (x *sut) observeSave(a saveReq, e tlmetadata.Event, err error) {
 		x.maxVer = e.Version
 	}
 	x.versions[e.Version] = true
-	// ---- oracle: namespaces cannot be renamed (requests for a namespace); rows hit by a request of another type are
-	// outside the property's quantifier and only counted
+	// ---- oracle: an edit is applied only to a row of the request's own type; namespaces cannot be renamed by ANY request
 	if existed {
 		if x.typ[e.Id] != a.typ {
-			x.tainted[e.Id] = true
-			h.Stat("save.ok.type-mismatch", 1)
-			if x.typ[e.Id] == 4 && x.nm[e.Id] != a.n.str() {
-				// reported finding, not an alarm: see namespace_rename_only_by_foreign_type in lean/SH/Props/C15.lean
-				h.Stat("save.ok.namespace-renamed-by-foreign-type", 1)
-			}
-		} else if a.typ == 4 && x.nm[e.Id] != a.n.str() {
-			h.Viol("namespace-renamed", "namespace %d renamed from %q to %q", e.Id, x.nm[e.Id], a.n.str())
+			h.Viol("edit-foreign-type-accepted", "request of type %d edited entity %d, which is of type %d", a.typ, e.Id, x.typ[e.Id])
+		}
+		if x.typ[e.Id] == 4 && x.nm[e.Id] != a.n.str() {
+			h.Viol("namespace-renamed", "namespace %d renamed from %q to %q by a request of type %d", e.Id, x.nm[e.Id], a.n.str(), a.typ)
 		}
 		if x.nm[e.Id] != a.n.str() {
 			x.flags["renamed"] = true
@@ -345,13 +339,16 @@ func (x *sut) observeSave(a saveReq, e tlmetadata.Event, err error) {
 			}
 		}
 	}
+	if e.EventType != x.typ[e.Id] {
+		h.Viol("entity-type-changed", "entity %d was created with type %d, the reply carries type %d", e.Id, x.typ[e.Id], e.EventType)
+	}
 	// ---- oracle: an entity in a namespace references an existing namespace
 	if (a.typ == 0 || a.typ == 2) && a.n.ns != 0 {
 		want := fmt.Sprintf("w%d", a.n.ns)
 		nsTyp, known := x.typ[e.NamespaceId]
 		if !known || nsTyp != 4 {
 			h.Viol("dangling-namespace", "entity %d (%s) saved with namespace_id %d which is not a namespace entity", e.Id, a.n.str(), e.NamespaceId)
-		} else if !x.tainted[e.NamespaceId] && x.nm[e.NamespaceId] != want {
+		} else if x.nm[e.NamespaceId] != want {
 			h.Viol("wrong-namespace", "entity %d (%s) saved with namespace_id %d named %q", e.Id, a.n.str(), e.NamespaceId, x.nm[e.NamespaceId])
 		}
 		h.Stat("save.ok.namespaced", 1)
@@ -715,7 +712,10 @@ func (x *sut) dumpBody(withHistory bool) {
 			if v, ok := x.cur[e.ID]; !ok || v != e.Version {
 				x.h.Viol("version-mismatch", "entity %d stored at version %d, last successful save returned %d", e.ID, e.Version, v)
 			}
-			if e.Type == 4 && !x.tainted[e.ID] && x.nsName[e.ID] != e.Name {
+			if t, ok := x.typ[e.ID]; ok && int64(t) != e.Type {
+				x.h.Viol("entity-type-changed", "entity %d was created with type %d, is stored with type %d", e.ID, t, e.Type)
+			}
+			if e.Type == 4 && x.nsName[e.ID] != e.Name {
 				x.h.Viol("namespace-renamed", "namespace %d is now %q, was created as %q", e.ID, e.Name, x.nsName[e.ID])
 			}
 		}
@@ -1108,7 +1108,7 @@ func raceC15(h *verifx.H, r *verifx.Rng) {
 		toks := make([]string, K)
 		for g := range reqs {
 			n := name{0, 100 + g}
-			if typ == 4 || x.tainted[id] {
+			if typ == 4 {
 				n = parseStrName(x.nm[id]) // namespaces keep their name: the racers differ in data and metadata
 			}
 			reqs[g] = saveReq{n: n, id: id, oldVersion: x.cur[id], typ: typ, dtag: 10 + g, dlen: 4, meta: g % 4}
@@ -1166,7 +1166,7 @@ func raceC15(h *verifx.H, r *verifx.Rng) {
 		if wins == 1 {
 			h.NonTrivial("race-distinct-one-winner")
 			fix := saveReq{n: name{0, 99}, id: id, oldVersion: x.cur[id], typ: typ, dtag: 1, dlen: 4, meta: 1}
-			if typ == 4 || x.tainted[id] {
+			if typ == 4 {
 				fix.n = parseStrName(x.nm[id])
 			}
 			x.save(fix) // overwrites whatever the winner wrote
